@@ -120,6 +120,24 @@ package vanguard
 //@ pred validConf(m) = m != nil && m.serviceOptions != nil && m.maxMsgBufferBytes > 0 && m.maxGetURLBytes > 0 && m.descriptor != nil && m.requestType != nil && m.responseType != nil && m.handler != nil
 //@ |  && m.protocols != nil && len(m.protocols) > 0 && m.codecNames != nil && len(m.codecNames) > 0 && m.resolver != nil
 //@ |  && (has(m.protocols, 1) || has(m.protocols, 2) || has(m.protocols, 3) || has(m.protocols, 4))
+// C15 / C17: configuration is built by NewTranscoder's registration functions and never written
+// afterwards: every write, in every function of the package, to an object of these types (or to a
+// map of these types) must be to an object the writing function allocated itself.
+//@ immutable vanguard.Transcoder except NewTranscoder, (*Transcoder).registerMethod, (*Transcoder).registerService, (*Transcoder).registerRules, (*Transcoder).addRule
+//@ immutable vanguard.methodConfig except NewTranscoder, (*Transcoder).registerMethod, (*Transcoder).registerService, (*Transcoder).addRule
+//@ immutable vanguard.serviceOptions except NewTranscoder, (*Transcoder).registerService, With*
+//@ immutable vanguard.routeTrie except (*routeTrie).addRoute, (*routeTrie).insert, (*routeTrie).insertChild, (*routeTrie).insertVerb
+//@ immutable vanguard.routeTarget except makeTarget, (*routeTrie).addRoute
+//@ immutable vanguard.compressionPool except newCompressionPool
+//@ immutable map[string]*vanguard.methodConfig except NewTranscoder, (*Transcoder).registerMethod
+//@ immutable map[string]*vanguard.routeTrie except (*routeTrie).insertChild, (*routeTrie).insert
+//@ immutable map[string]vanguard.routeMethods except (*routeTrie).insertVerb, (*routeTrie).insert
+//@ immutable vanguard.routeMethods except (*routeTrie).insertVerb, (*routeTrie).insert
+//@ immutable vanguard.codecMap except With*
+//@ immutable vanguard.compressionMap except With*
+//@ immutable map[vanguard.Protocol]struct{} except With*
+//@ immutable map[string]struct{} except With*
+
 //@ pred validTarget(t) = t != nil && validConf(t.config)
 //@ pred confOK(m) = validConf(m) && uf("registeredCodec", m.preferredCodec) == 1
 //@ typeinv methodConfig confOK except (*Transcoder).registerMethod, (*Transcoder).registerService, (*Transcoder).addRule, NewTranscoder
